@@ -76,6 +76,16 @@ fn main() {
         let derives = f.get(3).copied().unwrap_or("-");
         let ctx = f.get(4).copied().unwrap_or("-");
         let text = std::fs::read_to_string(gpath).expect("grammar file");
+        // optional 6th column: a "prelude" grammar compiled first, in the same thread, result discarded.
+        // Compiling a rule-permuted twin right before the real grammar exposes state that survives a compile.
+        if let Some(pre) = f.get(5) {
+            if *pre != "-" && mode == "gen" {
+                if let Ok(ptext) = std::fs::read_to_string(pre) {
+                    let _ = catch_unwind(AssertUnwindSafe(|| compile(&ptext, derives, ctx)));
+                    let _ = PANIC_INFO.lock().unwrap().take();
+                }
+            }
+        }
         {
             let mut o = out.lock();
             writeln!(o, "BEGIN {} {}", id, i).unwrap();
